@@ -45,14 +45,15 @@ var codeForwarder = asm(
 	"@ok", "JUMPDEST", "RETURNDATASIZE", "PUSH1", 0, "RETURN")
 
 type ercFixture struct {
-	c      *chain
-	ctx    sdk.Context
-	addrs  map[int]common.Address // id -> address
-	ids    []int
-	tokens map[int]common.Address // token id -> precompile address
-	denoms map[int]string         // denom id -> denom
-	tokDen map[int]int
-	fwd    map[int]bool // ids that are forwarder contracts
+	c        *chain
+	ctx      sdk.Context
+	addrs    map[int]common.Address // id -> address
+	ids      []int
+	tokens   map[int]common.Address // token id -> precompile address
+	denoms   map[int]string         // denom id -> denom
+	tokDen   map[int]int
+	fwd      map[int]bool // ids that are forwarder contracts
+	probeRng *hx.Rng      // E-calltree: view probes appended to root frames
 }
 
 var (
@@ -418,6 +419,12 @@ func TestEngineErc20(t *testing.T) {
 			amt := amountFor(caller, den)
 			if r.Chance(1, 6) {
 				amt = new(big.Int).Set(maxU256)
+			}
+			if r.Chance(1, 4) { // values at the edges of the byte encodings of the stored allowance
+				two := func(k uint) *big.Int { return new(big.Int).Lsh(big.NewInt(1), k) }
+				amt = hx.Pick(r, []*big.Int{big.NewInt(255), big.NewInt(256), big.NewInt(65535), new(big.Int).Sub(two(64), big.NewInt(1)), two(64), two(128),
+					new(big.Int).Sub(two(255), big.NewInt(1)), two(255), new(big.Int).Sub(maxU256, big.NewInt(1)), new(big.Int).Sub(two(248), big.NewInt(1)), two(248)})
+				p.Count("approve:edge-value")
 			}
 			doCall(tok, caller, "approve", sp, 0, amt)
 		case k < 80:
